@@ -177,3 +177,32 @@ package ctrlflow
 //@     invariant @comparison-constant-is-the-key-xor-the-global-key: _i >= 1 ==> iden[ssaRemap[dispatcher[_i-1].CompareVar]] == newKeys[_i-1] ^ globalKey
 //@     invariant @stored-value-is-local-key-xor-the-key: _i >= 1 ==> dyntypeis(ssaRemap[dispatcher[_i-1].StoreVar], *ast.ParenExpr) && dyntypeis(ssaRemap[dispatcher[_i-1].StoreVar].(*ast.ParenExpr).X, *ast.BinaryExpr) && ssaRemap[dispatcher[_i-1].StoreVar].(*ast.ParenExpr).X.(*ast.BinaryExpr).Op == token.XOR && ssaRemap[dispatcher[_i-1].StoreVar].(*ast.ParenExpr).X.(*ast.BinaryExpr).X.(*ast.Ident).Name == localKeyName && iden[ssaRemap[dispatcher[_i-1].StoreVar].(*ast.ParenExpr).X.(*ast.BinaryExpr).Y] == newKeys[_i-1]
 //@ end
+
+// ---- C11: delegate-table hardening of the dispatcher keys ----
+// Edge i compares against the literal k_i and stores table[d_i](k_i ^ dk_i), where delegate d returns
+// its argument xor (int(key[delegateKeyIdxs[d]]) ^ delegateLocalKeys[d]) and dk_i is exactly that value
+// for d = d_i: the call yields k_i. Each of the three loops is proved to set up its own element.
+
+//@ hookset delegatehard
+//@ hook after mvdan.cc/garble/internal/asthelper.IntLit(v) (r)
+//@   iden[r] = v
+//@ hook before mvdan.cc/garble/internal/asthelper.DataToArray(d)
+//@   assert("the-table-is-built-from-the-key-bytes-the-generator-used", ref(d) == ref(key) && len(d) == len(key))
+//@ end
+
+//@ func (delegateTableHardening).Apply
+//@   property C11
+//@   intmode bv
+//@   hooks delegatehard
+//@   skip safety call-requires
+//@   requires len(dispatcher) >= 1 && forall k int :: 0 <= k && k < len(dispatcher) ==> dispatcher[k].CompareVar != nil && dispatcher[k].StoreVar != nil && dispatcher[k].CompareVar != dispatcher[k].StoreVar
+//@   ensures @no-extra-statement-is-needed: isnil(r1)
+//@   loop 0
+//@     invariant @each-edge-picks-a-delegate-that-exists-and-records-its-key: _i >= 1 ==> 0 <= delegateIndexes[_i-1] && delegateIndexes[_i-1] < delegateCount && delegateKeys[_i-1] == int(key[delegateKeyIdxs[delegateIndexes[_i-1]]]) ^ delegateLocalKeys[delegateIndexes[_i-1]]
+//@     invariant len(delegateIndexes) == len(dispatcher) && len(delegateKeys) == len(dispatcher)
+//@   loop 1
+//@     invariant @comparison-constant-is-the-key: _i >= 1 ==> iden[ssaRemap[dispatcher[_i-1].CompareVar]] == newKeys[_i-1]
+//@     invariant @stored-value-is-the-delegate-call-on-the-key-xor-the-delegate-key: _i >= 1 ==> dyntypeis(ssaRemap[dispatcher[_i-1].StoreVar], *ast.CallExpr) && dyntypeis(ssaRemap[dispatcher[_i-1].StoreVar].(*ast.CallExpr).Fun, *ast.IndexExpr) && ssaRemap[dispatcher[_i-1].StoreVar].(*ast.CallExpr).Fun.(*ast.IndexExpr).X.(*ast.Ident).Name == globalTableName && iden[ssaRemap[dispatcher[_i-1].StoreVar].(*ast.CallExpr).Fun.(*ast.IndexExpr).Index] == delegateIndexes[_i-1] && len(ssaRemap[dispatcher[_i-1].StoreVar].(*ast.CallExpr).Args) == 1 && iden[ssaRemap[dispatcher[_i-1].StoreVar].(*ast.CallExpr).Args[0]] == newKeys[_i-1] ^ delegateKeys[_i-1]
+//@   loop 2
+//@     invariant @delegate-d-undoes-the-key-of-delegate-d: _i >= 1 ==> dyntypeis(delegatesAst[_i-1], *ast.FuncLit) && len(delegatesAst[_i-1].(*ast.FuncLit).Body.List) == 1 && dyntypeis(delegatesAst[_i-1].(*ast.FuncLit).Body.List[0].(*ast.ReturnStmt).Results[0], *ast.BinaryExpr) && delegatesAst[_i-1].(*ast.FuncLit).Body.List[0].(*ast.ReturnStmt).Results[0].(*ast.BinaryExpr).Op == token.XOR && delegatesAst[_i-1].(*ast.FuncLit).Body.List[0].(*ast.ReturnStmt).Results[0].(*ast.BinaryExpr).X.(*ast.Ident).Name == "i" && delegatesAst[_i-1].(*ast.FuncLit).Body.List[0].(*ast.ReturnStmt).Results[0].(*ast.BinaryExpr).Y.(*ast.BinaryExpr).Op == token.XOR && iden[delegatesAst[_i-1].(*ast.FuncLit).Body.List[0].(*ast.ReturnStmt).Results[0].(*ast.BinaryExpr).Y.(*ast.BinaryExpr).Y] == delegateLocalKeys[_i-1] && iden[delegatesAst[_i-1].(*ast.FuncLit).Body.List[0].(*ast.ReturnStmt).Results[0].(*ast.BinaryExpr).Y.(*ast.BinaryExpr).X.(*ast.CallExpr).Args[0].(*ast.IndexExpr).Index] == delegateKeyIdxs[_i-1] && delegatesAst[_i-1].(*ast.FuncLit).Body.List[0].(*ast.ReturnStmt).Results[0].(*ast.BinaryExpr).Y.(*ast.BinaryExpr).X.(*ast.CallExpr).Args[0].(*ast.IndexExpr).X.(*ast.Ident).Name == "key"
+//@ end
